@@ -37,6 +37,9 @@ def falsify(ctx, cfg, rows, init, ops, meta) -> bool:
                     if row != real[s["ts"]]:
                         bad = {"relation": "real-bucket-differs-from-unfilled"}
                         break
+                elif prev is None:
+                    bad = {"relation": "first-candle-is-not-a-real-bucket"}
+                    break
                 else:
                     pc = prev["ohlcv"][3]
                     if tuple(s["ohlcv"]) != (pc, pc, pc, pc, 0):
